@@ -260,7 +260,11 @@ def run(check_id, tier, seed):
         'outcomes': {str(k): v for k, v in sorted(outcomes.items(), key=lambda kv: -kv[1])[:12]},
         'flags': dict(flags),
         'caps_hit': caps[:20],
-        'exhaustive': (not caps) and not stopped,
+        # exhaustive = the stated finite space was enumerated completely; state-graph searches that stopped at their depth /
+        # transition cap ('no_fixpoint') are exhaustive only up to that cap and are therefore not reported as exhaustive
+        'exhaustive': (not caps) and not stopped and not flags.get('no_fixpoint'),
+        'searches_closed': flags.get('fixpoint', 0),
+        'searches_capped': flags.get('no_fixpoint', 0),
         'known_finding_cases': dict(known),
         'result_digest': hashlib.sha1(repr(sorted(digests.items())).encode()).hexdigest(),
     }
